@@ -128,6 +128,38 @@ func init() {
 		}
 		return p.tc.Const(64, uint64(n))
 	})
+	reg(vfPkg+".HeldDuring", func(p *Path, fn *ssa.Function, args []Value) Value {
+		// HeldDuring(lockPtr, event): every occurrence of event happened while the mutex was held
+		iv := args[0].(*IfaceV)
+		ptr, ok := iv.Val.(*PtrV)
+		if !ok || ptr.Obj == nil {
+			p.unsupported("vf.HeldDuring needs a pointer to a mutex")
+		}
+		name, _ := p.concreteString(args[1].(*SliceV))
+		held := 0
+		seen := 0
+		okAll := true
+		for _, e := range p.events {
+			switch e.Name {
+			case "lock", "rlock":
+				if lp, ok := e.Args[0].(*PtrV); ok && lp.Obj == ptr.Obj {
+					held++
+				}
+			case "unlock", "runlock":
+				if lp, ok := e.Args[0].(*PtrV); ok && lp.Obj == ptr.Obj {
+					held--
+				}
+			default:
+				if e.Name == name {
+					seen++
+					if held <= 0 {
+						okAll = false
+					}
+				}
+			}
+		}
+		return p.tc.Bool(okAll && seen > 0 && held == 0)
+	})
 	reg(vfPkg+".UF", func(p *Path, fn *ssa.Function, args []Value) Value {
 		name, _ := p.concreteString(args[0].(*SliceV))
 		return p.tc.UF("uf_"+name, BoolSort, p.variadicTerms(args[1])...)
@@ -239,6 +271,9 @@ func init() {
 		reg("sync/atomic.Add"+ty, func(p *Path, fn *ssa.Function, args []Value) Value {
 			ptr := args[0].(*PtrV)
 			p.nilCheck(ptr, "atomic add through nil")
+			if p.lockEvents {
+				p.events = append(p.events, Event{Name: "atomic.add", Args: args[:1]})
+			}
 			old := p.load(ptr, fn.Signature.Results().At(0).Type()).(*Term)
 			nv := p.tc.BvAdd(old, args[1].(*Term))
 			p.store(ptr, nv)
